@@ -121,7 +121,10 @@ func runLBAff(x *X) {
 		names = append(names, bc.Name)
 	}
 	ids := makeIdentities(x, nIDs)
-	onErr := func(e *simrt.SchedError) { x.Violate("C12", "C12/"+e.Kind+"{lbaff}", "%s", e.Error()) }
+	onErr := func(e *simrt.SchedError) {
+		x.Violate("C12", "C12/"+e.Kind+"{lbaff}", "%s", e.Error())
+		x.Blocked(e, "lbaff")
+	}
 	var h *lbHarness
 	x.Do("setup", func() {
 		h, _ = newLBHarness(x, net, lbOpts{strategy: strategy, backends: bcs, passive: true, threshold: 1, window: window})
